@@ -495,6 +495,11 @@ fn sender_menu() -> Vec<String> {
     }
     v.push(bech::addr("celestia", "s-one", 20).to_uppercase());
     // very long but checksum-valid addresses: "<channel>/<sender>" beyond 256 and beyond 1024 bytes
+    // addresses of chains that use the bech32m checksum
+    for label in ["m-one", "m-two"] {
+        let d = bech::decode(&bech::addr("celestia", label, 20)).unwrap();
+        v.push(bech::encode_const("celestia", &d.payload, bech::BECH32M_CONST));
+    }
     v.push(bech::addr("celestia", "s-long", 200));
     v.push(bech::addr("celestia", "s-long-b", 200));
     v.push(bech::addr("celestia", "s-huge", 700));
@@ -654,7 +659,8 @@ fn c09_execute_grid(r: &mut Runner) {
         let a20 = bech::addr(&k.native_prefix, label, 20);
         let a32 = bech::addr(&k.native_prefix, label, 32);
         // 200-byte payloads: the hashed string "<channel>/<address>" is longer than 256 bytes
-        vec![a20.clone(), a20.to_uppercase(), a32.clone(), a32.to_uppercase(), bech::addr(&k.native_prefix, label, 200), bech::addr(&k.native_prefix, &format!("{label}-twin"), 200)]
+        let m20 = bech::encode_const(&k.native_prefix, &bech::decode(&a20).unwrap().payload, bech::BECH32M_CONST);
+        vec![a20.clone(), a20.to_uppercase(), a32.clone(), a32.to_uppercase(), bech::addr(&k.native_prefix, label, 200), bech::addr(&k.native_prefix, &format!("{label}-twin"), 200), m20]
     };
     let channels = ["channel-0", "channel-7", "channel-007", "channel-42", "channel-18446744073709551615"];
     let mut n = 0u64;
